@@ -337,6 +337,11 @@ func (b *hwBlock) cond(e ast.Expr) string {
 				return "(" + n + " = true)"
 			}
 		}
+	case *ast.UnaryExpr:
+		// round 6: `!c` (a guard written the other way round)
+		if v.Op == token.NOT {
+			return "(¬ " + b.cond(v.X) + ")"
+		}
 	}
 	return b.x.failf(b.p, e, "condition %s", hwSrc(b.p, e))
 }
@@ -349,7 +354,28 @@ func (b *hwBlock) stmts(list []ast.Stmt, ind string) string {
 	s, rest := list[0], list[1:]
 	info := b.p.TypesInfo
 	switch v := s.(type) {
+	case *ast.BranchStmt:
+		// round 6: `continue` ends this round of the loop (the blocks translated here are loop bodies or straight-line code,
+		// where Go itself refuses a `continue`)
+		if v.Tok == token.CONTINUE && v.Label == nil {
+			return ind + "some st"
+		}
 	case *ast.AssignStmt:
+		// round 6: `local := <string expression>` introduces a plain variable
+		if v.Tok == token.DEFINE && len(v.Lhs) == 1 && len(v.Rhs) == 1 {
+			if id, ok := v.Lhs[0].(*ast.Ident); ok && id.Name != "_" {
+				if o := b.p.TypesInfo.Defs[id]; o != nil {
+					if bt, ok := o.Type().Underlying().(*types.Basic); ok && bt.Kind() == types.String {
+						r, i := b.strExpr(v.Rhs[0])
+						if i == "" {
+							n := fmt.Sprintf("loc%d", len(b.vars))
+							b.vars[o] = n
+							return ind + "let " + n + " := " + r + "\n" + b.stmts(rest, ind)
+						}
+					}
+				}
+			}
+		}
 		if len(v.Lhs) != 1 || len(v.Rhs) != 1 || v.Tok != token.ASSIGN {
 			break
 		}
@@ -438,11 +464,18 @@ func (b *hwBlock) stmts(list []ast.Stmt, ind string) string {
 			ix, ok := as.Rhs[0].(*ast.IndexExpr)
 			blank, ok2 := as.Lhs[0].(*ast.Ident)
 			okId, ok3 := as.Lhs[1].(*ast.Ident)
-			un, ok4 := v.Cond.(*ast.UnaryExpr)
-			if !ok || !ok2 || !ok3 || !ok4 || blank.Name != "_" || un.Op != token.NOT {
+			if !ok || !ok2 || !ok3 || blank.Name != "_" {
 				return ind + b.x.failf(b.p, s, "if-init shape")
 			}
-			if cid, ok := un.X.(*ast.Ident); !ok || b.obj(cid) != b.obj(okId) {
+			// `!ok` (the body runs when the key is absent) or, round 6, `ok` (the body runs when it is present)
+			positive := false
+			condX := v.Cond
+			if un, isNot := v.Cond.(*ast.UnaryExpr); isNot && un.Op == token.NOT {
+				condX = un.X
+			} else {
+				positive = true
+			}
+			if cid, ok := condX.(*ast.Ident); !ok || b.obj(cid) != b.obj(okId) {
 				return ind + b.x.failf(b.p, s, "if-init condition")
 			}
 			m, ok := b.mapExpr(ix.X)
@@ -452,6 +485,11 @@ func (b *hwBlock) stmts(list []ast.Stmt, ind string) string {
 			k, i := b.strExpr(ix.Index)
 			if i != "" {
 				return ind + b.x.failf(b.p, s, "index key")
+			}
+			if positive {
+				return ind + "match hget " + m + " " + k + " with\n" +
+					ind + "| some _ =>\n" + b.stmts(join(v.Body.List), ind+"  ") + "\n" +
+					ind + "| none =>\n" + b.stmts(rest, ind+"  ")
 			}
 			return ind + "match hget " + m + " " + k + " with\n" +
 				ind + "| some _ =>\n" + b.stmts(rest, ind+"  ") + "\n" +
@@ -877,6 +915,11 @@ func (x *hw) shoot(out *strings.Builder) {
 func (x *hw) hostWithoutPort(out *strings.Builder) {
 	p := x.pkgs["components/guns/http"]
 	fd := hwFunc(p, "", "getHostWithoutPort")
+	if fd != nil && hwHostWithoutPortEarlyReturn(p, fd) {
+		out.WriteString("/-- regenerated from `components/guns/http/client.go` func `getHostWithoutPort` (early-return form); `split` = net.SplitHostPort's host,\n`none` when it returns an error -/\n")
+		out.WriteString("def getHostWithoutPort (target : Str) (split : Option Str) : Str :=\n  match split with\n  | none => target\n  | some host => host\n\n")
+		return
+	}
 	if fd == nil || len(fd.Body.List) != 3 {
 		x.failf(p, fd, "getHostWithoutPort: expected 3 statements")
 		return
@@ -909,6 +952,57 @@ func (x *hw) hostWithoutPort(out *strings.Builder) {
 	}
 	out.WriteString("/-- regenerated from `components/guns/http/client.go` func `getHostWithoutPort`; `split` = net.SplitHostPort's host,\n`none` when it returns an error -/\n")
 	out.WriteString("def getHostWithoutPort (target : Str) (split : Option Str) : Str :=\n  match split with\n  | some host => host\n  | none => target\n\n")
+}
+
+// hwHostWithoutPortEarlyReturn (round 6): `h, _, e := net.SplitHostPort(t); if e != nil { return t }; return h`
+func hwHostWithoutPortEarlyReturn(p *packages.Package, fd *ast.FuncDecl) bool {
+	if len(fd.Body.List) != 3 || len(fd.Type.Params.List) != 1 || len(fd.Type.Params.List[0].Names) != 1 {
+		return false
+	}
+	param := p.TypesInfo.Defs[fd.Type.Params.List[0].Names[0]]
+	as, ok := fd.Body.List[0].(*ast.AssignStmt)
+	if !ok || as.Tok != token.DEFINE || len(as.Lhs) != 3 || len(as.Rhs) != 1 {
+		return false
+	}
+	call, ok := as.Rhs[0].(*ast.CallExpr)
+	if !ok || hwCallee(p, call) != "net.SplitHostPort" || len(call.Args) != 1 {
+		return false
+	}
+	if id, ok := call.Args[0].(*ast.Ident); !ok || p.TypesInfo.Uses[id] != param {
+		return false
+	}
+	hostID, ok1 := as.Lhs[0].(*ast.Ident)
+	errID, ok2 := as.Lhs[2].(*ast.Ident)
+	if !ok1 || !ok2 {
+		return false
+	}
+	ifs, ok := fd.Body.List[1].(*ast.IfStmt)
+	if !ok || ifs.Init != nil || ifs.Else != nil || len(ifs.Body.List) != 1 {
+		return false
+	}
+	be, ok := ifs.Cond.(*ast.BinaryExpr)
+	if !ok || be.Op != token.NEQ {
+		return false
+	}
+	if l, ok := be.X.(*ast.Ident); !ok || p.TypesInfo.Uses[l] != p.TypesInfo.Defs[errID] {
+		return false
+	}
+	if r, ok := be.Y.(*ast.Ident); !ok || r.Name != "nil" {
+		return false
+	}
+	ret, ok := ifs.Body.List[0].(*ast.ReturnStmt)
+	if !ok || len(ret.Results) != 1 {
+		return false
+	}
+	if id, ok := ret.Results[0].(*ast.Ident); !ok || p.TypesInfo.Uses[id] != param {
+		return false
+	}
+	last, ok := fd.Body.List[2].(*ast.ReturnStmt)
+	if !ok || len(last.Results) != 1 {
+		return false
+	}
+	id, ok := last.Results[0].(*ast.Ident)
+	return ok && p.TypesInfo.Uses[id] == p.TypesInfo.Defs[hostID]
 }
 
 func (x *hw) preResolve(out *strings.Builder) {
